@@ -108,7 +108,8 @@ class C02(Check):
                    'only the directions the statement gives are asserted']
     FAULT_KINDS = ('truncated_stream', 'check_body_raises', 'file_short_read',
                    'file_read_error', 'path_missing', 'path_is_directory',
-                   'empty_chunk', 'query_mid_stream')
+                   'empty_chunk', 'query_mid_stream',
+                   'cli_stdout_broken_pipe')
     PROBES = ('reject_labelled', 'accept_labelled', 'unlabelled',
               'rejected_by_expected_check', 'refused_incomplete',
               'cli_exit0', 'cli_exit1', 'cli_crash', 'cli_subprocess',
@@ -185,6 +186,11 @@ class C02(Check):
                 case['verbose'] = frng.random() < 0.5
                 case['subprocess'] = (frng.random() < 0.04 and
                                       not f['short'] and not f['fault'])
+                if case['subprocess'] and frng.random() < 0.5:
+                    # whoever read the tool's output has gone away: every
+                    # write to stdout fails with EPIPE
+                    case['stdout_gone'] = True
+                    case['verbose'] = True
         return case
 
     # -------------------------------------------------------------- execute
@@ -577,11 +583,24 @@ class C02(Check):
             self.bump('probes', 'cli_subprocess')
             env = dict(os.environ)
             env['PYTHONPATH'] = core.repo_root()
-            p = subprocess.run([sys.executable, '-m', 'oslo_utils.imageutils']
-                               + argv[1:], env=env, capture_output=True,
-                               text=True, timeout=120, cwd=d)
-            code = p.returncode
-            outtxt = p.stdout
+            cmd = [sys.executable, '-m', 'oslo_utils.imageutils'] + argv[1:]
+            if case.get('stdout_gone'):
+                self.bump('faults', 'cli_stdout_broken_pipe')
+                rfd, wfd = os.pipe()
+                os.close(rfd)
+                try:
+                    p = subprocess.run(cmd, env=env, stdout=wfd,
+                                       stderr=subprocess.PIPE, text=True,
+                                       timeout=120, cwd=d)
+                finally:
+                    os.close(wfd)
+                code = p.returncode
+                outtxt = 'SAFETY_CHECK_PASSED=True' if code == 0 else ''
+            else:
+                p = subprocess.run(cmd, env=env, capture_output=True,
+                                   text=True, timeout=120, cwd=d)
+                code = p.returncode
+                outtxt = p.stdout
         else:
             files = []
             if f['path'] == 'file':
